@@ -1,5 +1,5 @@
 SPECIFICATION OSpec
 CONSTANTS ValueSet = "small"
-  NParts = 24
+  NParts = 16
 INVARIANT OEmit
 CHECK_DEADLOCK FALSE
